@@ -61,12 +61,55 @@ def targets(ctx):
             out.append(("serialize_to_string", f"got={sts.hex()[:200]} want={b.hex()[:200]}"))
         return out, b
 
+    def mutate_in_place(m) -> bool:
+        """Change the message WITHOUT assigning any of its own attributes: append to a list it holds, add a map entry,
+        set a field of a sub-message it holds. -> whether something was changed."""
+        import dataclasses as _dc
+
+        for f in _dc.fields(m):
+            try:
+                v = getattr(m, f.name)
+            except AttributeError:  # unselected oneof member
+                continue
+            if isinstance(v, list) and v:
+                v.append(v[0])
+                return True
+            if isinstance(v, dict) and v:
+                k, x = next(iter(v.items()))
+                nk = (not k) if isinstance(k, bool) else (k + "x" if isinstance(k, str) else (k + 1 if k < 2**31 - 2 else k - 1))
+                if nk not in v:
+                    v[nk] = x
+                    return True
+            if isinstance(v, betterproto.Message) and betterproto.serialized_on_wire(v):
+                for g in _dc.fields(v):
+                    try:
+                        x = getattr(v, g.name)
+                    except AttributeError:
+                        continue
+                    if isinstance(x, str):
+                        setattr(v, g.name, x + "x")
+                        return True
+                    if type(x) is int:
+                        setattr(v, g.name, 1 if x != 1 else 2)
+                        return True
+        return False
+
+    def all_clauses(m):
+        """The clauses on the message as built, then again after an in-place mutation (a second observation of the
+        same instance must not rely on anything remembered from the first)."""
+        found, b = clauses(m)
+        mutated = guard("mutate_in_place", mutate_in_place, m)
+        if mutated:
+            again, _ = clauses(m)
+            found = found + [(cl + "_after_in_place_mutation", d) for cl, d in again]
+        return found, b, mutated
+
     def fails_clause(route, clause):
         def f(mi, tree):
             name = mi.full_name.split(".")[-1]
             try:
                 m = build(name, tree, route)
-                return any(cl == clause for cl, _ in clauses(m)[0])
+                return any(cl == clause for cl, _ in all_clauses(m)[0])
             except Guarded as g:
                 return clause == f"raises_{g.where}_{type(g.exc).__name__}"
 
@@ -80,8 +123,9 @@ def targets(ctx):
         b = b""
         try:
             m = build(name, tree, route, unknown, case.get("pos", []))
-            found, b = clauses(m)
+            found, b, mutated = all_clauses(m)
         except Guarded as g:
+            mutated = False
             found = [(f"raises_{g.where}_{type(g.exc).__name__}", str(g))]
         for clause, detail in found:
             for where in cm.culprits(schema, mi, tree, fails_clause(route, clause)):
@@ -99,7 +143,7 @@ def targets(ctx):
             marks += 1
         if any(("=empty" in d or "=zero" in d or "=false" in d) and (d.startswith("optional:") or d.startswith("oneof:") or d.startswith("single:message")) for d in descr):
             marks += 1
-        labs = kinds + [f"route:{route}", f"unknown:{min(len(unknown), 3)}", f"size>=128:{len(b) >= 128}"]
+        labs = kinds + [f"route:{route}", f"unknown:{min(len(unknown), 3)}", f"size>=128:{len(b) >= 128}", f"observed_again_after_in_place_mutation:{mutated}"]
         return Eval(fails, nontrivial=len(b) > 0 and marks > 0, labels=labs)
 
     base = cm.msg_tree_strategy(c)
